@@ -30,21 +30,32 @@ type algo struct {
 	name   string
 	yield  func(key string) // scheduler gate: user-supplied (de)compressors may be descheduled mid-operation
 	fault  compFault
-	counts map[string]int
+	counts [4]int // write, close, reset, read (a map would be race-instrumented by the runtime)
 	insts  int
 	// instrumentation results
 	Violations []string
 	Resets     int
 }
 
+func opIndex(op string) int {
+	switch op {
+	case "write":
+		return 0
+	case "close":
+		return 1
+	case "reset":
+		return 2
+	default:
+		return 3
+	}
+}
+
 //go:norace
 //go:noinline
 func (a *algo) tick(op string) bool {
-	if a.counts == nil {
-		a.counts = map[string]int{}
-	}
-	a.counts[op]++
-	return a.fault.At > 0 && a.fault.Op == op && a.counts[op] == a.fault.At
+	i := opIndex(op)
+	a.counts[i]++
+	return a.fault.At > 0 && a.fault.Op == op && a.counts[i] == a.fault.At
 }
 
 //go:norace
